@@ -33,6 +33,8 @@ structure FSt where
   names : List Hdr := []
   /-- `contentType` -/
   mt : Option MediaType := none
+  /-- `contentType.Schema`, once established to be non-nil -/
+  sch : Option Sch := none
   /-- `data` -/
   data : Option String := none
   /-- what `input.Body` yields when read now (`none` = nil) -/
@@ -141,7 +143,7 @@ def runResp (canon : String → String) (reg : List (String × String)) (o : Opt
      | none => stuck
      | some mt => match mt.schema with
        | none => ⟨none, st.bodyAfter⟩
-       | some _ => runResp canon reg o i hp r st)
+       | some s => runResp canon reg o i hp r { st with sch := some s })
   | .readBody _ :: r, st =>
     (match st.bodyAfter with
      | none => stuck
@@ -156,12 +158,9 @@ def runResp (canon : String → String) (reg : List (String × String)) (o : Opt
        | .val v => runResp canon reg o i hp r { st with value := some v }
        | _ => ⟨some .bodyDecode, st.bodyAfter⟩)
   | .visitBody asrep :: r, st =>
-    (match st.mt, st.value with
-     | some mt, some v =>
-       (match mt.schema with
-        | some s =>
-          if visit ⟨asrep, st.woOff⟩ v s then runResp canon reg o i hp r st else ⟨some .bodySchema, st.bodyAfter⟩
-        | none => stuck)
+    (match st.sch, st.value with
+     | some s, some v =>
+       if visit ⟨asrep, st.woOff⟩ v s then runResp canon reg o i hp r st else ⟨some .bodySchema, st.bodyAfter⟩
      | _, _ => stuck)
   | .retNil :: _, st => ⟨none, st.bodyAfter⟩
   | _ :: _, _ => stuck
@@ -204,5 +203,24 @@ theorem statusLookup_eq (m : List (String × α)) (status : Int) :
 
 theorem skipList_eq (st : Int) : ([304, 308, 307, 301] : List Int).contains st = skipStatus st := by
   simp [skipStatus, Bool.or_assoc]
+
+theorem decodeBody_eta (reg : List (String × String)) (i : Input) : decodeBody reg { i with body := i.body } = decodeBody reg i := rfl
+
+set_option maxHeartbeats 1000000 in
+/-- **The ValidateResponse program means `validateResponse`** (all response maps, statuses, header sets, bodies and
+option combinations). -/
+theorem runResp_expected (canon : String → String) (reg : List (String × String)) (o : Opts) (i : Input) :
+    runResp canon reg o i expectedHdrProgram expectedRespProgram { bodyAfter := some i.body }
+      = validateResponse canon reg o i := by
+  have hH : ∀ wo, (fun h => runHdr canon true wo i.hdrs h expectedHdrProgram .start)
+      = checkHeader canon wo i.hdrs := fun wo => funext (runHdr_expected canon wo i.hdrs)
+  rcases o with ⟨strict, exb, wo, multi⟩
+  unfold validateResponse checkBody
+  cases strict <;> cases wo <;> cases multi <;> cases h1 : respStatus i.responses i.status <;> cases h2 : respDefault i.responses <;>
+    simp only [expectedRespProgram, runResp, statusLookup_eq, skipList_eq, List.contains_cons, List.contains_nil,
+      List.all_cons, List.all_nil, condHolds, optField, h1, h2, hH, decodeBody_eta, skipStatus] <;>
+    simp (config := { maxSteps := 200000 }) [hH, stuck]
+  all_goals simp only [or_assoc]
+  all_goals rfl
 
 end KinModel.Response
